@@ -5,8 +5,8 @@
    destination of the same geometry, can be plugged in. *)
 From Coq Require Import List NArith ZArith Lia Bool ZifyBool.
 From GoMC Require Import Base.Bytes Base.Dec Model.C05 Model.C06 Model.C11 Model.C13
-  Proofs.C13 Proofs.C13_nbt Proofs.C13_wire Proofs.C13_inst Proofs.C13_save Proofs.C13_registry Gen.Registry.
-From GoMC Require Model.C01 Model.C12 Proofs.C11 Proofs.C12 Proofs.C01_dec.
+  Proofs.C13 Proofs.C13_nbt Proofs.C13_wire Proofs.C13_inst Proofs.C13_save Proofs.C13_registry Proofs.C13_fuel Proofs.C13_vanilla Gen.Registry.
+From GoMC Require Model.C01 Model.C12 Proofs.C11 Proofs.C12 Proofs.C12_data Proofs.C01_dec.
 Import ListNotations.
 Open Scope N_scope.
 
@@ -63,6 +63,41 @@ Theorem C13_wire_side_conditions : forall (fuelc : nat) (c d : Model.C12.pc),
   (i_compat c d <-> ((Model.C12.ccfg d = Model.C12.ccfg c) /\ (blen (Model.C12.cdata d) = blen (Model.C12.cdata c)))).
 Proof. intros. split; reflexivity. Qed.
 
+(* FUEL IS THE INPUT LENGTH.  wire_fuel is bounded by the length of the image plus 68 (every loop of the
+   reader consumes bytes the writer produced), so the fuel premise becomes |input| + 68 <= fuel - what
+   the driver passes.  Generic and instantiated forms. *)
+Theorem C13_wire_input_fuel :
+  forall (cont : Type) (pc_write : cont -> list N) (pc_read : bool -> cont -> dec (cont * N))
+         (X : Type) (pc_abs : cont -> X) (pc_good : cont -> Prop) (pc_compat : cont -> cont -> Prop),
+  (forall b d, robust (pc_read b d)) ->
+  (forall b c d rest, pc_good c -> pc_compat c d ->
+     exists c' n, run_flat (pc_read b d) (pc_write c ++ rest) = FOk (c', n) rest /\ pc_abs c' = pc_abs c) ->
+  forall (c d : chunk cont), chunk_ok cont pc_write pc_good pc_compat c d ->
+  exists img, chunk_write cont pc_write c = Some img /\
+  forall rest fuel, (length (img ++ rest) + 68 <= fuel)%nat ->
+  exists c', run_flat (chunk_read cont pc_read fuel d) (img ++ rest) = FOk (c', lenN img) rest /\
+    Forall3 (sec_rel cont X pc_abs) (c_secs c) (c_secs d) (c_secs c') /\
+    hMB (c_hm c') = hMB (c_hm c) /\ hWS (c_hm c') = hWS (c_hm c) /\
+    hWSWG (c_hm c') = hWSWG (c_hm d) /\ hOFWG (c_hm c') = hOFWG (c_hm d) /\
+    hOF (c_hm c') = hOF (c_hm d) /\ hMBNL (c_hm c') = hMBNL (c_hm d) /\
+    c_bes c' = c_bes c /\ c_status c' = c_status d.
+Proof. exact wire_roundtrip_input. Qed.
+Theorem C13_wire_instantiated_input_fuel :
+  forall (fuelc : nat) (c d : chunk Model.C12.pc),
+  chunk_ok Model.C12.pc i_write (i_good fuelc) i_compat c d ->
+  exists img, chunk_write Model.C12.pc i_write c = Some img /\
+  forall rest fuel, (length (img ++ rest) + 68 <= fuel)%nat ->
+  exists c', run_flat (chunk_read Model.C12.pc (i_read fuelc) fuel d) (img ++ rest) = FOk (c', lenN img) rest /\
+    Forall3 (sec_rel Model.C12.pc (list Z) Proofs.C12.pabs) (c_secs c) (c_secs d) (c_secs c') /\
+    hMB (c_hm c') = hMB (c_hm c) /\ hWS (c_hm c') = hWS (c_hm c) /\
+    hWSWG (c_hm c') = hWSWG (c_hm d) /\ hOFWG (c_hm c') = hOFWG (c_hm d) /\
+    hOF (c_hm c') = hOF (c_hm d) /\ hMBNL (c_hm c') = hMBNL (c_hm d) /\
+    c_bes c' = c_bes c /\ c_status c' = c_status d.
+Proof.
+  intros fuelc. exact (wire_roundtrip_input Model.C12.pc i_write (i_read fuelc) (list Z) Proofs.C12.pabs
+                         (i_good fuelc) i_compat (i_robust fuelc) (i_rt fuelc)).
+Qed.
+
 (* SAVE FORM.  For the concrete container of Model/C13.v (PaletteContainer at field level), any registry
    whose two directions are mutually inverse where defined (C13_registry's subject), any registry widths
    9..32 / 4..32, every chunk whose containers satisfy the field-level invariant wc_inv (kind and storage
@@ -100,6 +135,44 @@ Theorem C13_width_recovery : forall gs gb c,
   ((4 <= gb <= 32)%Z -> wc_inv true gb 64 c ->
      exists c', with_data gs gb true 64 (data (w_data c)) (wc_export c) = SOk c' /\ wc_same c c').
 Proof. intros. split; [apply with_data_states|apply with_data_biomes]. Qed.
+
+(* SAVE DATA IN THE VANILLA LAYOUT, ANY PALETTE SIZE (the resolveIndirect path of fix 6364be8 included).
+   The section part of ChunkFromSave is one piece of code, generic in the model of
+   New*PaletteContainerWithData and Get (from_save_sec_g); instantiated with the field-level container it
+   IS the model the driver runs (C13_from_save_generic), instantiated with C12's pc_with_data / pc_get it
+   satisfies: for a save section whose block palette (registry ids after the name lookup) and index
+   array are in the vanilla layout - any palette length 1 .. 2^g, width 0 for one entry, else
+   max(4, ceil log2 n) for block states and ceil log2 n for biomes, data of exactly the packed length -
+   and likewise for its biomes, the section is loaded, both containers satisfy C12's invariant and denote
+   exactly the arrays C12's independent reader of the save layout (spec_saved: index j resolved through
+   the palette) gives, the counter is the number of non-air entries of that array, the light arrays are
+   the saved ones.  (C12_with_data_section does the container work.) *)
+Theorem C13_from_save_vanilla :
+  forall st_id bio_id is_air gs gb,
+  Proofs.C12.wfcfg (cf_of gs gb false) -> Proofs.C12.wfcfg (cf_of gs gb true) ->
+  forall (v : ssect) ids bids a b,
+  opt_all (map st_id (ss_bpal v)) = Some ids -> opt_all (map bio_id (ss_biopal v)) = Some bids ->
+  vanilla_ok (cf_of gs gb false) ids (ss_bdata v) a ->
+  vanilla_ok (cf_of gs gb true) bids (ss_biodata v) b ->
+  exists s, from_save_sec_g Model.C12.pc (c12_mk gs gb) Model.C12.pc_get st_id bio_id is_air v = SOk s /\
+    Proofs.C12.Inv (s_states s) /\ Proofs.C12.Inv (s_biomes s) /\
+    Proofs.C12.pabs (s_states s) = a /\ Proofs.C12.pabs (s_biomes s) = b /\
+    length a = 4096%nat /\ length b = 64%nat /\
+    s_count s = non_air is_air a /\ s_sky s = ss_sky v /\ s_blk s = ss_blk v.
+Proof. exact vanilla_section. Qed.
+Theorem C13_from_save_generic : forall st_id bio_id is_air gs gb v,
+  from_save_sec_g wcont (wc_mk gs gb) wc_get st_id bio_id is_air v = from_save_sec st_id bio_id is_air gs gb v.
+Proof. exact from_save_sec_generic_eq. Qed.
+(* what vanilla_ok says *)
+Theorem C13_vanilla_layout : forall cf pat dat a,
+  vanilla_ok cf pat dat a <->
+  (pat <> [] /\ Forall (Proofs.C12.inreg cf) pat /\ (Model.C12.zlen pat <= 2 ^ Model.C12.gbits cf)%Z /\
+   (let n := Proofs.C12_data.section_len (Model.C12.ckind cf) in
+    let w := Model.C12.save_width (Model.C12.ckind cf) (Model.C12.zlen pat) in
+    Z.of_nat (length dat) = (if (w =? 0)%Z then 0%Z else Proofs.C11.size_of w n) /\
+    Forall (fun l => l < 2^64) dat /\
+    Model.C12.spec_saved (Z.to_N w) (Z.to_nat n) pat dat = Some a)).
+Proof. intros. reflexivity. Qed.
 
 (* THE REGISTRY, a finite sweep over ALL 26,684 block states re-checked by the kernel (exhaustive
    execution on a finite domain, not an inductive argument).  Gen/Registry.v is dumped on every run by
@@ -326,6 +399,22 @@ Proof.
   - vm_compute. reflexivity.
 Qed.
 
+(* a block section with 300 palette entries (9-bit indices, 586 longs) is in the vanilla layout *)
+Example C13_ex_vanilla : exists a,
+  vanilla_ok (cf_of 15 6 false) (map Z.of_nat (seq 0 300)) (repeat 0x0000000000040201 586) a /\
+  firstn 8 a = [1; 1; 1; 0; 0; 0; 0; 1]%Z /\
+  Proofs.C12.wfcfg (cf_of 15 6 false) /\ Proofs.C12.wfcfg (cf_of 15 6 true).
+Proof.
+  eexists. split; [|split; [|split; unfold Proofs.C12.wfcfg; cbn; lia]].
+  - unfold vanilla_ok. split; [discriminate|]. split.
+    { apply Forall_forall. intros x Hx. apply in_map_iff in Hx. destruct Hx as (k & <- & Hk). apply in_seq in Hk.
+      unfold Proofs.C12.inreg. cbn [cf_of Model.C12.gbits]. change (2 ^ 15)%Z with 32768%Z. lia. }
+    split; [vm_compute; discriminate|]. cbv zeta.
+    split; [vm_compute; reflexivity|]. split; [apply Forall_forall; intros x Hx; apply repeat_spec in Hx; subst x; reflexivity|].
+    vm_compute. reflexivity.
+  - vm_compute. reflexivity.
+Qed.
+
 Example C13_ex_count :
   arr_set_blocks (fun v => Z.eqb v 0) (0%Z, repeat 0%Z 8) [(1, 5); (1, 0); (2, 7); (2, 9); (7, 1)]%Z
   = (2%Z, [0; 0; 9; 0; 0; 0; 0; 1]%Z).
@@ -334,8 +423,13 @@ Proof. vm_compute. reflexivity. Qed.
 Print Assumptions C13_wire.
 Print Assumptions C13_wire_instantiated.
 Print Assumptions C13_wire_side_conditions.
+Print Assumptions C13_wire_input_fuel.
+Print Assumptions C13_wire_instantiated_input_fuel.
 Print Assumptions C13_save.
 Print Assumptions C13_width_recovery.
+Print Assumptions C13_from_save_vanilla.
+Print Assumptions C13_from_save_generic.
+Print Assumptions C13_vanilla_layout.
 Print Assumptions C13_registry.
 Print Assumptions C13_registry_biomes.
 Print Assumptions C13_heightmap_nbt.
